@@ -57,7 +57,10 @@ res["demo_with_log"] = o[-900:]
 # the suite on the patched tree, without the demo
 clean()
 apply_patch()
-p = subprocess.run([sys.executable, os.path.join(os.path.dirname(os.path.abspath(__file__)), "baseline.py"), wt], capture_output=True, text=True)
+# crates touched by the patch (from the diff itself): the suite is run for them and every workspace crate depending on them
+touched = sorted({l.split()[-1].split("/")[1] for l in open(os.path.join(seed, "patch.diff")) if l.startswith("+++ b/")})
+res["suite_scope_touched"] = touched
+p = subprocess.run([sys.executable, os.path.join(os.path.dirname(os.path.abspath(__file__)), "baseline.py"), wt, "--touched", ",".join(touched)], capture_output=True, text=True)
 res["suite_passes_with_patch"] = p.returncode == 0
 res["suite_log"] = p.stdout[-1500:]
 clean()
